@@ -1,0 +1,102 @@
+//go:build verif
+
+package gabi
+
+// Verification hooks (build tag "verif"): thin exported wrappers around unexported
+// functions and around internal/common, which an external module cannot import.
+// Add-only; compiled out without the tag.
+
+import (
+	"io"
+
+	"github.com/privacybydesign/gabi/big"
+	"github.com/privacybydesign/gabi/gabikeys"
+	"github.com/privacybydesign/gabi/internal/common"
+)
+
+func VerifHashCommit(values []*big.Int, issig bool) *big.Int { return common.HashCommit(values, issig) }
+func VerifGetHashNumber(a, b *big.Int, index int, bitlen uint) *big.Int {
+	return common.GetHashNumber(a, b, index, bitlen)
+}
+func VerifIntHashSha256(input []byte) *big.Int { return common.IntHashSha256(input) }
+func VerifCreateChallenge(context, nonce *big.Int, contributions []*big.Int, issig bool) *big.Int {
+	return createChallenge(context, nonce, contributions, issig)
+}
+func VerifModInverse(a, n *big.Int) (*big.Int, bool)         { return common.ModInverse(a, n) }
+func VerifModPow(x, y, m *big.Int) (*big.Int, error)         { return common.ModPow(x, y, m) }
+func VerifLegendreSymbol(a, p *big.Int) int                  { return common.LegendreSymbol(a, p) }
+func VerifCrt(a, pa, b, pb *big.Int) *big.Int                { return common.Crt(a, pa, b, pb) }
+func VerifPrimeSqrt(a, pa *big.Int) (*big.Int, bool)         { return common.PrimeSqrt(a, pa) }
+func VerifModSqrt(a *big.Int, f []*big.Int) (*big.Int, bool) { return common.ModSqrt(a, f) }
+func VerifSumFourSquares(n *big.Int) (*big.Int, *big.Int, *big.Int, *big.Int) {
+	return common.SumFourSquares(n)
+}
+func VerifRepresentToBases(bases, exps []*big.Int, modulus *big.Int, maxLen uint) *big.Int {
+	return common.RepresentToBases(bases, exps, modulus, maxLen)
+}
+func VerifRandomPrimeInRange(r io.Reader, start, length uint) (*big.Int, error) {
+	return common.RandomPrimeInRange(r, start, length)
+}
+func VerifRandomBigInt(numBits uint) (*big.Int, error) { return common.RandomBigInt(numBits) }
+func VerifFastRandomBigInt(limit *big.Int) *big.Int    { return common.FastRandomBigInt(limit) }
+func VerifRandomQR(n *big.Int) *big.Int                { return common.RandomQR(n) }
+func VerifSmallPrimes() ([]uint8, *big.Int)            { return common.SmallPrimes, common.SmallPrimesProduct }
+
+// VerifFastMod exposes common.FastMod.
+type VerifFastMod struct{ m common.FastMod }
+
+func (f *VerifFastMod) Set(p *big.Int)               { f.m.Set(p) }
+func (f *VerifFastMod) Mod(ret, x *big.Int) *big.Int { return f.m.Mod(ret, x) }
+
+// VerifCPRNG exposes common.CPRNG with an observable block counter.
+type VerifCPRNG struct{ c *common.CPRNG }
+
+func VerifNewCPRNG(seed *[32]byte) (*VerifCPRNG, error) {
+	c, err := common.NewCPRNG(seed)
+	if err != nil {
+		return nil, err
+	}
+	return &VerifCPRNG{c}, nil
+}
+func (c *VerifCPRNG) Read(buf []byte) (int, error) { return c.c.Read(buf) }
+
+// Unexported verification internals.
+func (p *ProofD) VerifReconstructZ(pk *gabikeys.PublicKey) (*big.Int, error) {
+	return p.reconstructZ(pk)
+}
+func (p *ProofD) VerifCorrectResponseSizes(pk *gabikeys.PublicKey) bool {
+	return p.correctResponseSizes(pk)
+}
+func (p *ProofD) VerifRevocationAttrIndex() int { return p.revocationAttrIndex() }
+func (p *ProofU) VerifReconstructUcommit(pk *gabikeys.PublicKey) (*big.Int, error) {
+	return p.reconstructUcommit(pk)
+}
+func VerifGetUndisclosedAttributes(disclosed []int, n int) []int {
+	return getUndisclosedAttributes(disclosed, n)
+}
+func VerifSignMessageBlockAndCommitment(sk *gabikeys.PrivateKey, pk *gabikeys.PublicKey, U *big.Int, ms []*big.Int) (*CLSignature, error) {
+	return signMessageBlockAndCommitment(sk, pk, U, ms)
+}
+
+// Builder internals needed to compute implied randomisers and to drive custom challenges.
+func (d *DisclosureProofBuilder) VerifRandomizers() (eCommit, vCommit *big.Int, attr map[int]*big.Int) {
+	return d.eCommit, d.vCommit, d.attrRandomizers
+}
+func (d *DisclosureProofBuilder) VerifRandomizedSignature() *CLSignature {
+	return d.randomizedSignature
+}
+func (b *CredentialBuilder) VerifState() (secret, vPrime, vPrimeCommit, u *big.Int, mUser, mUserCommit map[int]*big.Int) {
+	return b.secret, b.vPrime, b.vPrimeCommit, b.u, b.mUser, b.mUserCommit
+}
+func (ic *Credential) VerifNonrevCacheLen() int {
+	if ic.nonrevCache == nil {
+		return -1
+	}
+	return len(ic.nonrevCache)
+}
+func (b *NonRevocationProofBuilder) VerifState() (randomizer *big.Int, index uint64, commitments []*big.Int) {
+	return b.randomizer, b.index, b.commitments
+}
+func (ic *Credential) VerifNonrevConsumeBuilder() (*NonRevocationProofBuilder, error) {
+	return ic.nonrevConsumeBuilder()
+}
